@@ -105,6 +105,10 @@ func c05Inputs() []c05Input {
 		lg := absLog{{Date: "2021/01/24", Entries: []absIng{{rb.book[0].Name, 1}, {"u1", 2}}}}
 		out = append(out, c05Input{Name: rb.name, Book: renderBook(rb.book), Log: renderLog(lg), Extra: []string{"--maxdepth", rb.depth}})
 	}
+	// every special scenario (harness/specials.go): one departure from the ordinary input at a time
+	for _, sc := range specialScenarios() {
+		out = append(out, c05Input{Name: "special: " + sc.Name, Book: renderBook(sc.Book), Log: renderLog(sc.Log)})
+	}
 	for _, sh := range shapes {
 		for _, extraDepth := range []int{0, 1} {
 			lg := absLog{{Date: "2021/01/24", Entries: []absIng{{sh.book[0].Name, 1}, {"u1", 2}}}, {Date: "2021/01/25", Entries: []absIng{{sh.book[1].Name, 2}, {"u2", 2}}}}
